@@ -312,7 +312,7 @@ pub fn def() -> PropertyDef {
             sub(
                 "R/cross-direction",
                 |ctx: &RunCtx| lattice(if ctx.tier == Tier::Quick { 256 } else { 1024 }, 32),
-                (500, 10_000),
+                (2000, 20_000),
                 |ctx: &RunCtx, f: Option<&Cfg>| {
                     let cfg = match f {
                         Some(c) => Just(*c).boxed(),
